@@ -190,7 +190,10 @@ class ParamResolver:
             exponent = self.value_of(value.args[1], recursive)
             # Casts because numpy can handle expressions (by delegating to __pow__), but does
             # not have signature that will support this.
-            if isinstance(base, numbers.Number):
+            if all(
+                isinstance(x, numbers.Number) and not isinstance(x, sympy.Basic)
+                for x in (base, exponent)
+            ):
                 return np.float_power(cast(complex, base), cast(complex, exponent))
             return np.power(cast(complex, base), cast(complex, exponent))
 
